@@ -1,2 +1,50 @@
 #![allow(warnings, clippy::all, clippy::pedantic, clippy::nursery)]
+//@ module: repofile::packfile
 use super::*;
+use crate::error::verif_harness as vh;
+use crate::blob::BlobId;
+
+/// stub for PackHeaderLength::to_binary (binrw): arbitrary 4 bytes
+pub(crate) fn stub_len_to_binary(_s: PackHeaderLength) -> PackFileResult<Vec<u8>> {
+    let b: [u8; 4] = kani::any();
+    let mut v = Vec::with_capacity(4);
+    v.push(b[0]); v.push(b[1]); v.push(b[2]); v.push(b[3]);
+    Ok(v)
+}
+
+fn any_blob() -> IndexBlob {
+    IndexBlob {
+        id: BlobId::from(vh::mk_id(kani::any())),
+        tpe: if kani::any() { BlobType::Tree } else { BlobType::Data },
+        location: BlobLocation { offset: kani::any(), length: kani::any(), uncompressed_length: NonZeroU32::new(kani::any()) },
+    }
+}
+
+//@ harness: c08_header_entry_mapping
+//@ prop: C08
+//@ tier: quick
+//@ timeout: 600
+//@ kernel: HeaderEntry::{from_blob, length, into_blob, into_location}, PackHeaderRef::{size, pack_size}
+//@ bound: 2 arbitrary index blobs (type, id first byte, offset, length, uncompressed length all symbolic; lengths <= 2^30 so the u32 sums of a <= 4 GiB pack cannot overflow)
+//@ oracle: HeaderEntry::from_blob(b).into_blob(b.offset) == b (type / compression / lengths mapping is lossless); length() is 37 / 41; size() == 32 + sum(entry lengths); pack_size() == 36 + sum(entry length + blob length)
+//@ outside: the binrw byte encoding of the entries
+#[kani::proof]
+#[kani::unwind(36)]
+pub(crate) fn c08_header_entry_mapping() {
+    let b0 = any_blob();
+    let b1 = any_blob();
+    kani::assume(b0.location.length <= (1 << 30) && b1.location.length <= (1 << 30));
+    for b in [b0, b1] {
+        let e = HeaderEntry::from_blob(&b);
+        assert!(e.length() == if b.location.uncompressed_length.is_some() { 41 } else { 37 });
+        let back = e.into_blob(b.location.offset);
+        assert!(back == b);
+    }
+    let blobs = [b0, b1];
+    let h = PackHeaderRef(&blobs);
+    let l0 = HeaderEntry::from_blob(&b0).length();
+    let l1 = HeaderEntry::from_blob(&b1).length();
+    assert!(h.size() == 32 + l0 + l1);
+    assert!(h.pack_size() == 36 + l0 + l1 + b0.location.length + b1.location.length);
+    kani::cover!(l0 != l1, "one compressed and one uncompressed entry");
+}
